@@ -466,6 +466,12 @@ func TestC03(t *testing.T) {
 		}
 		return out
 	})
+	// subscribers that resume: what a replay sends counts as sent — flushed before Joe is idle again
+	// (a subscriber whose replay ends on a message of another topic, and who gets nothing live afterwards)
+	gr := jGen{Resume: true, BadIDs: true, Replayers: []string{"finite:3:auto", "finite:4:manual", "finite:7:auto", "valid:auto", "valid:manual"}, MaxSubs: 3, MaxPubs: 3, MaxMsgs: 5, Latency: true}
+	jLoop(t, r, "R", r.N(1200, 20000), gr, 3, 3, []map[string]int64{{"loop.replayed": 120}, {"loop.sub": 60, "loop.msg": 30}}, func(sc *jScenario, tr *jTrace) []jv {
+		return append(oracleDelivery(sc, tr, true), oracleFlush(tr)...)
+	})
 }
 
 // TestC03 also runs a few large scenarios (tens of subscribers, hundreds of messages).
@@ -498,7 +504,8 @@ func TestC04(t *testing.T) {
 	defer r.Finish()
 	g := jGen{Resume: true, BadIDs: true, Replayers: []string{"finite:2:auto", "finite:2:manual", "finite:3:auto", "finite:3:manual", "finite:4:manual", "finite:7:auto", "valid:auto", "valid:manual"}, MaxSubs: 3, MaxPubs: 3, MaxMsgs: 5, Latency: true}
 	jLoop(t, r, "S", r.N(4000, 60000), g, 3, 4, []map[string]int64{{"loop.replayed": 120}, {"loop.sub": 60, "loop.msg": 30}, {"loop.put": 70}, {"sub.accepted": 80, "pub.accepted": 40}}, func(sc *jScenario, tr *jTrace) []jv {
-		return oracleDelivery(sc, tr, true)
+		// the Sends of a replay are Sends like any other: flushed before Joe is idle again
+		return append(oracleDelivery(sc, tr, true), oracleFlush(tr)...)
 	})
 }
 
